@@ -223,7 +223,7 @@ pub fn generate(seed: u64) -> Sc {
         sequences,
         app_run_files: app_runs.iter().map(|_| r.range(1, 3) as usize).collect(),
         legacy_date_col: r.chance(1, 5),
-        date_fmt: r.weighted(&[4, 1, 1]) as u8,
+        date_fmt: r.weighted(&[6, 1, 1, 2]) as u8,
         e2e: r.chance(1, 12),
         clock_tz: if r.chance(1, 3) { Some(*r.pick(&[5i8, 8, 12, -1, -9, -13])) } else { None },
         app_runs,
@@ -978,7 +978,7 @@ impl Engine for C12 {
     }
 
     fn sample(&self, sc: &Sc) -> Value {
-        json!({"calendar": sc.cal, "today": sc.today, "published_today": sc.published_today, "malformed": sc.malformed, "lookups": sc.lookups, "shared_loader_sequences": sc.sequences, "date_fmt_of_application_runs": DATE_FMTS[sc.date_fmt as usize % 3], "degraded_network_runs": sc.degraded.len(), "observation_order": sc.format.obs_order,
+        json!({"calendar": sc.cal, "today": sc.today, "published_today": sc.published_today, "malformed": sc.malformed, "lookups": sc.lookups, "shared_loader_sequences": sc.sequences, "date_fmt_of_application_runs": DATE_FMTS[sc.date_fmt as usize % 4], "degraded_network_runs": sc.degraded.len(), "observation_order": sc.format.obs_order,
                "app_runs": sc.app_runs.iter().map(|r| app_csv(r)).collect::<Vec<_>>() })
     }
     fn hang_or_death_is_violation(&self) -> bool {
@@ -1097,7 +1097,7 @@ impl C12 {
         let mut args: Vec<String> = vec!["tx.csv".to_string()];
         if sc.date_fmt != 0 {
             args.push("--date-fmt".to_string());
-            args.push(DATE_FMTS[sc.date_fmt as usize % 3].to_string());
+            args.push(DATE_FMTS[sc.date_fmt as usize % 4].to_string());
         }
         let now = (today - ymd(1970, 1, 1)).whole_days() * 86_400 + 43_200;
         let o = std::process::Command::new(format!("{}/debug/acb", dir))
